@@ -18,6 +18,7 @@ def check(run):
     run.mir_info.append(info)
     run.guard(BR.check_direct_build_closure, funcs, 'C12')
     run.guard(BR.check_integrator_closures, funcs, 'C12')
+    run.guard(CN.cell_record, funcs, 'C12')
     if run.tier == 'quick':
         CN.check(run, funcs, 'C12', 3, 2)
     else:
